@@ -239,7 +239,7 @@ fn raw_op<K: KeyT, V: ValT, E: OnEvictCallback, S: BuildHasher>(c: &mut RawLRU<K
     match op {
         Op::DebugFmt => Ret::Str(format!("{:?}", c)),
         Op::RemoveLru => Ret::KV(c.remove_lru().map(|(k, v)| take_kv(k, v, out))),
-        Op::Resize(n) => Ret::Num(c.resize(n as usize)),
+        Op::Resize(n) => Ret::Num(c.resize(if n == 255 { usize::MAX } else { n as usize })),
         Op::GetLru => okv(c.get_lru()),
         Op::GetLruMut => okv_mut(c.get_lru_mut(), false),
         Op::GetLruMutW => okv_mut(c.get_lru_mut(), true),
@@ -341,12 +341,21 @@ pub struct SlruSubj<K, V>(pub SegmentedCache<K, V, HB, HB>);
 impl<K: KeyT, V: ValT> Subject for SlruSubj<K, V> {
     fn build(cfg: &Cfg) -> Result<Self, String> {
         catch_build(|| {
-            SegmentedCacheBuilder::new(cfg.caps[0], cfg.caps[1])
-                .set_probationary_hasher(hasher_for(cfg, 0))
-                .set_protected_hasher(hasher_for(cfg, 1))
-                .finalize()
-                .map(SlruSubj)
-                .map_err(|e| format!("{:?}", e))
+            if cfg.builder_path == 0 {
+                SegmentedCacheBuilder::new(cfg.caps[0], cfg.caps[1])
+                    .set_probationary_hasher(hasher_for(cfg, 0))
+                    .set_protected_hasher(hasher_for(cfg, 1))
+                    .finalize()
+                    .map(SlruSubj)
+                    .map_err(|e| format!("{:?}", e))
+            } else {
+                let b = SegmentedCacheBuilder::default()
+                    .set_protected_hasher(hasher_for(cfg, 1))
+                    .set_probationary_hasher(hasher_for(cfg, 0))
+                    .set_probationary_size(cfg.caps[0])
+                    .set_protected_size(cfg.caps[1]);
+                SegmentedCache::from_builder(b).map(SlruSubj).map_err(|e| format!("{:?}", e))
+            }
         })
     }
     fn apply(&mut self, op: Op, out: &mut Vec<u32>) -> Ret {
@@ -418,15 +427,26 @@ pub struct TwoQSubj<K: KeyT, V>(pub TwoQueueCache<K, V, HB, HB, HB>);
 impl<K: KeyT, V: ValT> Subject for TwoQSubj<K, V> {
     fn build(cfg: &Cfg) -> Result<Self, String> {
         catch_build(|| {
-            TwoQueueCacheBuilder::new(cfg.caps[0])
-                .set_recent_ratio(cfg.ratios.0)
-                .set_ghost_ratio(cfg.ratios.1)
-                .set_recent_hasher(hasher_for(cfg, 0))
-                .set_frequent_hasher(hasher_for(cfg, 1))
-                .set_ghost_hasher(hasher_for(cfg, 2))
-                .finalize()
-                .map(TwoQSubj)
-                .map_err(|e| format!("{:?}", e))
+            if cfg.builder_path == 0 {
+                TwoQueueCacheBuilder::new(cfg.caps[0])
+                    .set_recent_ratio(cfg.ratios.0)
+                    .set_ghost_ratio(cfg.ratios.1)
+                    .set_recent_hasher(hasher_for(cfg, 0))
+                    .set_frequent_hasher(hasher_for(cfg, 1))
+                    .set_ghost_hasher(hasher_for(cfg, 2))
+                    .finalize()
+                    .map(TwoQSubj)
+                    .map_err(|e| format!("{:?}", e))
+            } else {
+                let b = TwoQueueCacheBuilder::default()
+                    .set_ghost_hasher(hasher_for(cfg, 2))
+                    .set_frequent_hasher(hasher_for(cfg, 1))
+                    .set_recent_hasher(hasher_for(cfg, 0))
+                    .set_ghost_ratio(cfg.ratios.1)
+                    .set_size(cfg.caps[0])
+                    .set_recent_ratio(cfg.ratios.0);
+                TwoQueueCache::from_builder(b).map(TwoQSubj).map_err(|e| format!("{:?}", e))
+            }
         })
     }
     fn apply(&mut self, op: Op, out: &mut Vec<u32>) -> Ret {
@@ -482,14 +502,24 @@ pub struct ArcSubj<K, V>(pub AdaptiveCache<K, V, HB, HB, HB, HB>);
 impl<K: KeyT, V: ValT> Subject for ArcSubj<K, V> {
     fn build(cfg: &Cfg) -> Result<Self, String> {
         catch_build(|| {
-            AdaptiveCacheBuilder::new(cfg.caps[0])
-                .set_recent_hasher(hasher_for(cfg, 0))
-                .set_frequent_hasher(hasher_for(cfg, 1))
-                .set_recent_evict_hasher(hasher_for(cfg, 2))
-                .set_frequent_evict_hasher(hasher_for(cfg, 3))
-                .finalize()
-                .map(ArcSubj)
-                .map_err(|e| format!("{:?}", e))
+            if cfg.builder_path == 0 {
+                AdaptiveCacheBuilder::new(cfg.caps[0])
+                    .set_recent_hasher(hasher_for(cfg, 0))
+                    .set_frequent_hasher(hasher_for(cfg, 1))
+                    .set_recent_evict_hasher(hasher_for(cfg, 2))
+                    .set_frequent_evict_hasher(hasher_for(cfg, 3))
+                    .finalize()
+                    .map(ArcSubj)
+                    .map_err(|e| format!("{:?}", e))
+            } else {
+                let b = AdaptiveCacheBuilder::default()
+                    .set_frequent_evict_hasher(hasher_for(cfg, 3))
+                    .set_recent_evict_hasher(hasher_for(cfg, 2))
+                    .set_frequent_hasher(hasher_for(cfg, 1))
+                    .set_recent_hasher(hasher_for(cfg, 0))
+                    .set_size(cfg.caps[0]);
+                AdaptiveCache::from_builder(b).map(ArcSubj).map_err(|e| format!("{:?}", e))
+            }
         })
     }
     fn apply(&mut self, op: Op, out: &mut Vec<u32>) -> Ret {
@@ -553,13 +583,28 @@ pub fn est_snap(s: &caches::lfu::VerifTinyLFUState) -> EstSnap {
 impl<K: KeyT, V: ValT> Subject for WtlfuSubj<K, V> {
     fn build(cfg: &Cfg) -> Result<Self, String> {
         catch_build(|| {
-            let mut c = WTinyLFUCacheBuilder::with_hashers(KH(cfg.kh), hasher_for(cfg, 2), hasher_for(cfg, 1), hasher_for(cfg, 0))
-                .set_window_cache_size(cfg.caps[0])
-                .set_protected_cache_size(cfg.caps[1])
-                .set_probationary_cache_size(cfg.caps[2])
-                .set_samples(cfg.samples)
-                .finalize()
-                .map_err(|e| format!("{:?}", e))?;
+            let mut c = if cfg.builder_path == 0 {
+                WTinyLFUCacheBuilder::with_hashers(KH(cfg.kh), hasher_for(cfg, 2), hasher_for(cfg, 1), hasher_for(cfg, 0))
+                    .set_window_cache_size(cfg.caps[0])
+                    .set_protected_cache_size(cfg.caps[1])
+                    .set_probationary_cache_size(cfg.caps[2])
+                    .set_samples(cfg.samples)
+                    .finalize()
+                    .map_err(|e| format!("{:?}", e))?
+            } else {
+                // sizes first (in another order), every hasher setter afterwards, the key hasher last
+                let b = WTinyLFUCacheBuilder::<K, KH, HB, HB, HB>::default()
+                    .set_false_positive_ratio(0.01)
+                    .set_probationary_cache_size(cfg.caps[2])
+                    .set_samples(cfg.samples)
+                    .set_protected_cache_size(cfg.caps[1])
+                    .set_window_cache_size(cfg.caps[0])
+                    .set_window_hasher(hasher_for(cfg, 0))
+                    .set_probationary_hasher(hasher_for(cfg, 1))
+                    .set_protected_hasher(hasher_for(cfg, 2))
+                    .set_key_hasher(KH(cfg.kh));
+                WTinyLFUCache::from_builder(b).map_err(|e| format!("{:?}", e))?
+            };
             c.verif_estimator_mut().verif_set_seeds(cfg.seeds);
             Ok(WtlfuSubj(c))
         })
